@@ -2,6 +2,7 @@ package props
 
 import (
 	"fmt"
+	"go/token"
 	"go/types"
 	"os"
 	"sort"
@@ -394,8 +395,30 @@ func checkLifecycle(c *core.Ctx, r *core.Report, fn *ssa.Function, start *ssa.Ca
 			}
 		}
 	}
+	// after a successful start the query it returned is not nil: the nil edge of a test of that value (or of the
+	// variable it was merged into) is not taken
+	startedWeb := map[ssa.Value]bool{}
+	if refs := start.Referrers(); refs != nil {
+		for _, u := range *refs {
+			if ex, ok := u.(*ssa.Extract); ok && ex.Index == 0 {
+				for v := range phiWeb(fn, ex) {
+					startedWeb[v] = true
+				}
+				startedWeb[ex] = true
+			}
+		}
+	}
 	edgeOK := func(from, to *ssa.BasicBlock) bool {
 		if ifi, ok := core.LastIf(from); ok {
+			if bo, ok := ifi.Cond.(*ssa.BinOp); ok && (bo.Op == token.EQL || bo.Op == token.NEQ) && core.IsNilConst(bo.Y) && startedWeb[bo.X] && from.Succs[0] != from.Succs[1] {
+				nilSucc := from.Succs[0]
+				if bo.Op == token.NEQ {
+					nilSucc = from.Succs[1]
+				}
+				if to == nilSucc {
+					return false
+				}
+			}
 			if val, ok := known[ifi.Cond]; ok {
 				if val && to == from.Succs[1] && from.Succs[0] != from.Succs[1] {
 					return false
@@ -408,6 +431,7 @@ func checkLifecycle(c *core.Ctx, r *core.Report, fn *ssa.Function, start *ssa.Ca
 		return true
 	}
 	var leak *ssa.Return
+	var failLeak *ssa.Return // a leaking return that reports an error: never a hand-over
 	core.WalkForwardEdges(fn, start, func(in ssa.Instruction) bool {
 		if errv != nil && core.NilnessAt(errv, in.Block()) == core.No {
 			return false // the start failed: nothing to delete
@@ -415,11 +439,19 @@ func checkLifecycle(c *core.Ctx, r *core.Report, fn *ssa.Function, start *ssa.Ca
 		if isDelete(in) {
 			return false
 		}
-		if ret, ok := in.(*ssa.Return); ok && leak == nil {
-			leak = ret
+		if ret, ok := in.(*ssa.Return); ok {
+			if leak == nil {
+				leak = ret
+			}
+			if failLeak == nil && core.ReturnSuccess(ret) == core.No {
+				failLeak = ret
+			}
 		}
 		return true
 	}, edgeOK)
+	if failLeak != nil {
+		leak = failLeak
+	}
 	if leak != nil && firstStateNotReadyExit(c, start, leak) {
 		r.Assume("PAIR", construct+":first-state-not-READY-exit", c.Pos(leak.Pos()),
 			"this return is taken only when the first state received on the new query's own StateChan is not READY; withLockRunQuery is the only sender before the query is published and always sends READY first, so the exit is unreachable (named exception: the shape `state := <-rQuery.StateChan; if state.StateName != READY { return }` directly after the start)")
@@ -437,6 +469,141 @@ func checkLifecycle(c *core.Ctx, r *core.Report, fn *ssa.Function, start *ssa.Ca
 			}
 			return true
 		}, edgeOK)
+	}
+	if leak != nil && core.ReturnSuccess(leak) != core.No && fn.Parent() == nil {
+		// hand-over: a helper that starts the query and, on success, returns it to its caller does not delete it —
+		// its callers do.  The return must hand the started query out (the value the start returned), and in every
+		// static caller the obligation is checked from the helper's call, with the qid mapped to the caller's value.
+		handsOut := false
+		var started ssa.Value
+		if refs := start.Referrers(); refs != nil {
+			for _, u := range *refs {
+				if ex, ok := u.(*ssa.Extract); ok && ex.Index == 0 {
+					started = ex
+				}
+			}
+		}
+		if started != nil {
+			sw := phiWeb(fn, started)
+			for _, rv := range leak.Results {
+				if sw[rv] || rv == started {
+					handsOut = true
+				}
+			}
+		}
+		sites := c.StaticCallers()[fn]
+		if handsOut && len(sites) > 0 {
+			allOK := true
+			for _, site := range sites {
+				cs, ok := site.(*ssa.Call)
+				if !ok {
+					allOK = false
+					continue
+				}
+				// the qid in the caller: the argument, or the result through which the helper returns it
+				var qidInCaller ssa.Value
+				if p, ok := qidArg.(*ssa.Parameter); ok {
+					for i, fp := range fn.Params {
+						if fp == p && i < len(cs.Call.Args) {
+							qidInCaller = cs.Call.Args[i]
+						}
+					}
+				} else {
+					for j, rv := range leak.Results {
+						if web[rv] {
+							if refs := cs.Referrers(); refs != nil {
+								for _, u := range *refs {
+									if ex, ok := u.(*ssa.Extract); ok && ex.Index == j {
+										qidInCaller = ex
+									}
+								}
+							}
+						}
+					}
+				}
+				if qidInCaller == nil {
+					allOK = false
+					continue
+				}
+				caller := cs.Parent()
+				cweb := phiWeb(caller, qidInCaller)
+				cerr, _ := errResultOf(cs)
+				isCallerDelete := func(in ssa.Instruction) bool {
+					ci, ok := in.(ssa.CallInstruction)
+					if !ok {
+						return false
+					}
+					if core.IsCallTo(ci, deleteQ) && cweb[ci.Common().Args[0]] {
+						return true
+					}
+					if callee := ci.Common().StaticCallee(); callee != nil {
+						if idx, ok := delegates[callee]; ok && idx < len(ci.Common().Args) && cweb[ci.Common().Args[idx]] {
+							return true
+						}
+					}
+					return false
+				}
+				// the helper starts this query only under a condition (a companion query that may not exist): the
+				// caller then deletes it under a condition too.  The two conditions are not compared (they are
+				// computed in different functions); a test whose guarded arm deletes the query is taken to be the
+				// condition under which it was started (named assumption)
+				conditionalStart := false
+				for _, ret := range core.Returns(fn) {
+					if core.ReturnSuccess(ret) != core.No && !start.Block().Dominates(ret.Block()) {
+						conditionalStart = true
+					}
+				}
+				guardedDelete := map[*ssa.BasicBlock]bool{}
+				if conditionalStart {
+					for _, gb := range caller.Blocks {
+						if _, ok := core.LastIf(gb); !ok {
+							continue
+						}
+						for _, arm := range gb.Succs {
+							if len(arm.Preds) != 1 {
+								continue
+							}
+							for _, in := range arm.Instrs {
+								if isCallerDelete(in) {
+									guardedDelete[gb] = true
+								}
+							}
+						}
+					}
+				}
+				usedGuard := false
+				var cleak *ssa.Return
+				core.WalkForwardEdges(caller, cs, func(in ssa.Instruction) bool {
+					if cerr != nil && core.NilnessAt(cerr, in.Block()) == core.No {
+						return false
+					}
+					if isCallerDelete(in) {
+						return false
+					}
+					if ret, ok := in.(*ssa.Return); ok && cleak == nil {
+						cleak = ret
+					}
+					return true
+				}, func(from, to *ssa.BasicBlock) bool {
+					if guardedDelete[from] {
+						usedGuard = true
+						return false
+					}
+					return true
+				})
+				if usedGuard && cleak == nil {
+					r.Assume("PAIR", construct+":caller-deletes-under-the-start-condition", c.Pos(cs.Pos()), fn.Name()+" starts this query only under a condition and "+caller.Name()+" deletes it under a test of its own; the two conditions are taken to be the same (they are computed in different functions and are not compared)")
+				}
+				if cleak != nil {
+					allOK = false
+					r.Violation("PAIR", construct, c.Pos(cleak.Pos()), fmt.Sprintf("%s starts the query and hands it to %s, where this return is reachable without DeleteQuery for it: its entry stays in the running/waiting tables and keeps an admission slot forever", fn.Name(), caller.Name()))
+				}
+			}
+			if allOK {
+				r.OK("PAIR", construct, c.Pos(start.Pos()), "on success the started query is handed to the caller, where every return after the call is preceded by DeleteQuery for the same qid")
+			}
+			return
+		}
 	}
 	if leak != nil {
 		r.Violation("PAIR", construct, c.Pos(leak.Pos()), fmt.Sprintf("after %s succeeded at %s this return is reachable without DeleteQuery for that query: its entry stays in the running/waiting tables and keeps an admission slot forever", core.ObjName(core.CalleeFunc(start)), c.Pos(start.Pos())))
